@@ -6,227 +6,10 @@ use crate::common::*;
 use pest::error::InputLocation;
 use serde_json::json;
 use std::panic::{catch_unwind, AssertUnwindSafe};
-use vmon::gen::{gen_grammar, GenCfg, Profile};
 use vmon::rng::{hash_bytes, Rng};
 use vmon::shard::{Args, Report};
 
 const CALL_LIMIT: usize = 300_000;
-const MAX_LEN: usize = 4096;
-
-const TOKENS: &[&str] = &[
-    "PEEK[", "PEEK[..]", "PEEK[1..", "PEEK[-1..2]", "..", "]", "[", "PUSH(", "PUSH_LITERAL(", "PUSH_LITERAL(\"x\")", "(", ")", "{", "}", "{1,", ",2}", "{2}",
-    "{0}", "{,0}", "{0,0}", "{3,1}", "{64}", "\\u{110000}", "\"\\u{110000}\"", "\"\\u{D800}\"", "'\\u{DFFF}'", "\"\\xFF\"", "\"\\x\"", "\"\\u{\"", "\"\\u{}\"",
-    "\"\\u{1234567}\"", "\"\\q\"", "'a'..", "'a'..'b'", "'ab'", "''", "'", "\"", "\"\"", "^", "^\"a\"", "^ \"a\"", "#t =", "#t", "#", "//!", "///", "//", "/*", "*/",
-    "/* /* */", "WHITESPACE", "COMMENT", "ANY", "SOI", "EOI", "POP", "PEEK", "DROP", "PEEK_ALL", "POP_ALL", "_", "@", "$", "!", "&", "~", "|", "*", "+", "?", "=",
-    "=_{", "={", "a", "a =", "a = { a }", "b = { \"x\" }", "-", "-0", "-1", "0", "é", "🎈", "\u{0}", "\r\n", "\n", " ", "\t", "\\", ",", "ASCII_DIGIT", "LETTER", "self",
-    "PUSH", "PUSHa", "PEEKa", "\u{feff}",
-];
-const BIGNUMS: &[&str] = &[
-    "2147483647", "2147483648", "-2147483648", "-2147483649", "4294967295", "4294967296", "99999999999", "18446744073709551616", "1180591620717411303424", "-99999999999999999999",
-];
-const ALPHA: &[char] = &[
-    '{', '}', '(', ')', '[', ']', '|', '~', '*', '+', '?', '!', '&', '@', '$', '_', '^', '"', '\'', '\\', '.', ',', '=', '#', '-', '/', ' ', '\n', 'a', 'b', 'P', 'U', 'S', 'H', 'E', 'K', '0', '1', '9', 'u', 'x', 'é',
-];
-
-fn corpus(root: &str) -> Vec<(String, String)> {
-    let mut out = vec![];
-    fn walk(dir: &std::path::Path, out: &mut Vec<(String, String)>) {
-        let Ok(rd) = std::fs::read_dir(dir) else { return };
-        let mut entries: Vec<_> = rd.flatten().collect();
-        entries.sort_by_key(|e| e.path());
-        for e in entries {
-            let p = e.path();
-            if p.is_dir() {
-                let name = p.file_name().unwrap().to_string_lossy().to_string();
-                if name == "target" || name.starts_with('.') {
-                    continue;
-                }
-                walk(&p, out);
-            } else if let Some(ext) = p.extension() {
-                if ext == "pest" || ext == "grammar" {
-                    if let Ok(t) = std::fs::read_to_string(&p) {
-                        out.push((p.to_string_lossy().to_string(), t));
-                    }
-                }
-            }
-        }
-    }
-    walk(std::path::Path::new(root), &mut out);
-    out
-}
-
-/// The statement bounds repetition counts; the unroller makes that many copies, multiplicatively
-/// when nested. Texts whose counts multiply beyond this bound are outside the premise.
-fn counts_in_scope(text: &str) -> bool {
-    // drop PEEK[...] segments (slice indices are not repetition counts)
-    let mut t = String::with_capacity(text.len());
-    let mut rest = text;
-    while let Some(i) = rest.find("PEEK") {
-        t.push_str(&rest[..i]);
-        let after = &rest[i + 4..];
-        let trimmed = after.trim_start();
-        if trimmed.starts_with('[') {
-            match trimmed.find(']') {
-                Some(j) => rest = &trimmed[j + 1..],
-                None => {
-                    rest = "";
-                }
-            }
-        } else {
-            t.push_str("PEEK");
-            rest = after;
-        }
-    }
-    t.push_str(rest);
-    // strip comments roughly (this is only a scope filter)
-    let mut u = String::with_capacity(t.len());
-    let bytes: Vec<char> = t.chars().collect();
-    let mut i = 0;
-    let mut depth = 0usize;
-    while i < bytes.len() {
-        if bytes[i] == '/' && i + 1 < bytes.len() && bytes[i + 1] == '*' {
-            depth += 1;
-            i += 2;
-        } else if depth > 0 && bytes[i] == '*' && i + 1 < bytes.len() && bytes[i + 1] == '/' {
-            depth -= 1;
-            i += 2;
-        } else if depth == 0 && bytes[i] == '/' && i + 1 < bytes.len() && bytes[i + 1] == '/' {
-            while i < bytes.len() && bytes[i] != '\n' {
-                i += 1;
-            }
-        } else {
-            if depth == 0 {
-                u.push(bytes[i]);
-            }
-            i += 1;
-        }
-    }
-    // repetition counts: digit runs whose previous non-blank character is `{` or `,`
-    let mut product: f64 = 1.0;
-    let mut cur: Option<f64> = None;
-    let mut prev_sig = ' ';
-    let mut counting = false;
-    for c in u.chars().chain(std::iter::once(' ')) {
-        if let Some(d) = c.to_digit(10) {
-            if cur.is_none() {
-                counting = prev_sig == '{' || prev_sig == ',';
-            }
-            cur = Some((cur.unwrap_or(0.0) * 10.0 + d as f64).min(1e12));
-        } else {
-            if let Some(v) = cur.take() {
-                if counting {
-                    if v > 64.0 {
-                        return false;
-                    }
-                    product *= v.max(1.0);
-                    if product > 50_000.0 {
-                        return false;
-                    }
-                }
-                prev_sig = '0';
-            }
-            if !c.is_whitespace() {
-                prev_sig = c;
-            }
-        }
-    }
-    true
-}
-
-fn mutate(base: &str, rng: &mut Rng) -> (String, &'static str) {
-    let mut cs: Vec<char> = base.chars().collect();
-    let kind = match rng.below(9) {
-        0 => {
-            if !cs.is_empty() {
-                let i = rng.below(cs.len());
-                cs.truncate(i);
-            }
-            "truncate"
-        }
-        1 => {
-            for _ in 0..1 + rng.below(3) {
-                if !cs.is_empty() {
-                    let i = rng.below(cs.len());
-                    cs.remove(i);
-                }
-            }
-            "delete_chars"
-        }
-        2 => {
-            for _ in 0..1 + rng.below(3) {
-                let i = rng.below(cs.len() + 1);
-                cs.insert(i, *rng.pick(ALPHA));
-            }
-            "insert_chars"
-        }
-        3 => {
-            for _ in 0..1 + rng.below(3) {
-                if !cs.is_empty() {
-                    let i = rng.below(cs.len());
-                    cs[i] = *rng.pick(ALPHA);
-                }
-            }
-            "replace_chars"
-        }
-        4 | 5 => {
-            for _ in 0..1 + rng.below(3) {
-                let i = rng.below(cs.len() + 1);
-                let tok: Vec<char> = rng.pick(TOKENS).chars().collect();
-                cs.splice(i..i, tok);
-            }
-            "insert_tokens"
-        }
-        6 => {
-            // an out-of-range number, where numbers go
-            let i = rng.below(cs.len() + 1);
-            let n = *rng.pick(BIGNUMS);
-            let tok: String = match rng.below(4) {
-                0 => format!("PEEK[{n}..]"),
-                1 => format!("PEEK[..{n}]"),
-                2 => format!("PEEK[{n}..{n}]"),
-                _ => format!("PEEK[ -{} .. ]", n.trim_start_matches('-')),
-            };
-            cs.splice(i..i, tok.chars());
-            "big_slice_index"
-        }
-        7 => {
-            if cs.len() > 2 {
-                let i = rng.below(cs.len());
-                let j = (i + 1 + rng.below(40)).min(cs.len());
-                let seg: Vec<char> = cs[i..j].to_vec();
-                let k = rng.below(cs.len() + 1);
-                cs.splice(k..k, seg);
-            }
-            "duplicate_segment"
-        }
-        _ => {
-            if cs.len() > 2 {
-                let i = rng.below(cs.len());
-                let j = (i + 1 + rng.below(60)).min(cs.len());
-                cs.drain(i..j);
-            }
-            "delete_segment"
-        }
-    };
-    (cs.into_iter().collect(), kind)
-}
-
-fn cut(text: &str, rng: &mut Rng) -> String {
-    if text.len() <= MAX_LEN {
-        return text.to_string();
-    }
-    // a window of whole lines, at most MAX_LEN bytes
-    let lines: Vec<&str> = text.split_inclusive('\n').collect();
-    let start = rng.below(lines.len());
-    let mut out = String::new();
-    for l in &lines[start..] {
-        if out.len() + l.len() > MAX_LEN {
-            break;
-        }
-        out.push_str(l);
-    }
-    out
-}
 
 fn check_location(text: &str, loc: &InputLocation) -> Result<(), String> {
     let ok = |p: usize| p <= text.len() && text.is_char_boundary(p);
@@ -249,7 +32,7 @@ fn check_location(text: &str, loc: &InputLocation) -> Result<(), String> {
 }
 
 fn check_text(rep: &mut Report, text: &str, kind: &str, source: &str) {
-    if !counts_in_scope(text) {
+    if !vmon::textgen::counts_in_scope(text) {
         rep.count("out_of_scope_repetition_counts");
         return;
     }
@@ -336,7 +119,7 @@ pub fn run(args: &Args) {
     }
     let mut rng = Rng::new(args.seed, "c09", args.shard);
     let root = args.opt("corpus").unwrap_or("/repo").to_string();
-    let files = corpus(&root);
+    let files = vmon::textgen::corpus(&root);
     rep.add("corpus_files", files.len() as u64);
     if files.is_empty() {
         rep.inconclusive(json!({"why": "no grammar files found", "root": root}));
@@ -355,57 +138,14 @@ pub fn run(args: &Args) {
         }
     }
     let n = args.budget(400_000, 20_000_000);
-    let mut cfg = GenCfg::new(Profile::Full);
-    cfg.wide_literals = true;
-    cfg.max_count = 12;
-    cfg.wild_left_refs_pct = 20;
+    let cfg = vmon::textgen::default_cfg();
     for i in 0..n {
         if rep.elapsed() > args.max_s {
             rep.notes.insert("stopped_early_at".into(), json!(i));
             break;
         }
         let mut r = rng.fork();
-        let (text, kind, source) = match i % 10 {
-            0..=4 if !files.is_empty() => {
-                let (_, t) = r.pick(&files);
-                let base = cut(t, &mut r);
-                let (mut m, mut kind) = mutate(&base, &mut r);
-                if r.chance(1, 3) {
-                    let (m2, k2) = mutate(&m, &mut r);
-                    m = m2;
-                    kind = k2;
-                }
-                (m, kind, "corpus")
-            }
-            5..=7 => {
-                let rules = gen_grammar(&mut r, &cfg);
-                let base = if r.chance(1, 2) { vmon::print::rules_to_string(&rules) } else { vmon::print::Printer::fuzz(&mut r).rules(&rules) };
-                if r.chance(1, 5) {
-                    (base, "generated_unmodified", "generator")
-                } else {
-                    let (m, kind) = mutate(&base, &mut r);
-                    (m, kind, "generator")
-                }
-            }
-            8 => {
-                let n = r.below(60);
-                let s: String = (0..n).map(|_| *r.pick(ALPHA)).collect();
-                (s, "random_chars", "random")
-            }
-            _ => {
-                let n = 1 + r.below(14);
-                let mut s = String::new();
-                for _ in 0..n {
-                    let tok: &str = if r.chance(1, 12) { *r.pick(BIGNUMS) } else { *r.pick(TOKENS) };
-                    s.push_str(tok);
-                    if r.chance(1, 2) {
-                        s.push(' ');
-                    }
-                }
-                (s, "random_tokens", "random")
-            }
-        };
-        let text = if text.len() > MAX_LEN { text[..text.char_indices().take_while(|(i, _)| *i <= MAX_LEN).last().map(|x| x.0).unwrap_or(0)].to_string() } else { text };
+        let (text, kind, source) = vmon::textgen::gen_text(&mut r, i, &files, &cfg);
         rep.journal(|| json!({"text": text}));
         check_text(&mut rep, &text, kind, source);
     }
